@@ -193,6 +193,10 @@ pub struct CodegenContext {
 
     next_macro_scope_id: usize,
 
+    /// The names of the files that are currently being emitted (the main file and any nested imports),
+    /// used to detect circular imports
+    import_stack: Vec<String>,
+
     test_elements: Vec<TestElement>,
 
     source_map: SourceMap,
@@ -239,6 +243,7 @@ impl CodegenContext {
             current_scope: IdentifierPath::empty(),
             current_scope_nx: SymbolIndex::new(0),
             next_macro_scope_id: 0,
+            import_stack: vec![],
             test_elements: vec![],
             source_map: SourceMap::default(),
         }
@@ -730,6 +735,20 @@ impl CodegenContext {
                 if let Some(imported_file) = self.tree.try_get_file(resolved_path) {
                     let imported_file_tokens = imported_file.tokens.clone();
 
+                    // A file that (indirectly) imports itself would otherwise recurse until the stack overflows
+                    let imported_file_name = imported_file.file.name().to_string();
+                    if imported_file_name == self.tree.main_file().file.name()
+                        || self.import_stack.contains(&imported_file_name)
+                    {
+                        return Err(Diagnostic::error()
+                            .with_message(format!(
+                                "circular import: \"{}\"",
+                                filename.uninterpolated_text()
+                            ))
+                            .with_labels(vec![filename.span().to_label()])
+                            .into());
+                    }
+
                     // Make the filename a definition by itself, allowing the user to follow the definition
                     let def = self
                         .analysis
@@ -745,13 +764,16 @@ impl CodegenContext {
                         span: filename.span(),
                     });
 
-                    self.with_scope(import_scope, block.as_ref(), |s| {
+                    self.import_stack.push(imported_file_name);
+                    let result = self.with_scope(import_scope, block.as_ref(), |s| {
                         if let Some(block) = block {
                             s.emit_tokens(&block.inner)?;
                         }
 
                         s.emit_tokens(&imported_file_tokens)
-                    })?;
+                    });
+                    self.import_stack.pop();
+                    result?;
 
                     if let Some(import_nx) =
                         self.symbols.try_index(self.current_scope_nx, import_scope)
